@@ -19,8 +19,8 @@ C. s4 binary vs an independent python SPEC of each rendering (timestamps by pyth
      D9 verbose_order          the order of the field lines differs (FIELD_ORDER_VERBOSE)
      D10 unknown_identifier    journalctl prints "unknown" for an entry with neither SYSLOG_IDENTIFIER nor _COMM, s4 nothing
      D11 source_monotonic_time journalctl short-monotonic shows _SOURCE_MONOTONIC_TIMESTAMP when the entry has one
-   Two classes are genuine findings of the renderings (known_findings.d/C09.json): host_boot_id_unreadable,
-   verbose_multivalued_field.
+   Two classes are genuine defects of the renderings found with this module, since repaired in /repo
+   (known_findings.d/C09.json, kind fixed): host_boot_id_unreadable, verbose_multivalued_field.
 """
 import datetime, json, os, re, shutil, subprocess, threading
 import vlib
